@@ -254,7 +254,7 @@ def run(prog, R):
                 rs = cx.prov(body, t.args[0])
                 if any(r.is_param(rpi.key, P_DINIT) for r in rs):
                     init_sites.append((body, blk, t))
-    n_loop = n_straight = 0
+    n_loop = n_straight = n_other_loop = 0
     for body, blk, t in init_sites:
         where = 'other'
         ok = False
@@ -271,8 +271,39 @@ def run(prog, R):
                 # every iteration passes the Range::next call; leaving on None
                 every_iter = all(sc.cfg.dominates(nb, a) for a, hh in sc.cfg.back_edges() if hh == hs[0])
                 ok = n_loop <= 1 and every_iter
+        # in the setup code, inside a loop that is not the `for _ in 0..queue_len` form (a countdown, a `while n < queue_len`):
+        # how often it runs is not decided here
+        other_loop = body is sc and where == 'other' and bool(in_loop(sc, blk))
+        if other_loop:
+            # ... provided the loop is controlled by a quantity derived from the queue length at all; a loop that only ends when
+            # a send fails (`while try_send(init()?).is_ok() {}`, seed C16-r4a) is bounded by the channel, not by queue_len
+            loops_ = sc.cfg.natural_loops()
+            dep_q = False
+            for h_ in in_loop(sc, blk):
+                for x_ in loops_.get(h_, ()):
+                    tt_ = sc.blocks[x_].term
+                    if tt_.k == 'switch' and not tt_.discr.is_const and any(s_ not in loops_[h_] for s_ in sc.cfg.succ.get(x_, ())):
+                        # any value feeding the exit test that derives from the queue-length parameter
+                        stack_ = [tt_.discr]
+                        seen_ops = 0
+                        while stack_ and seen_ops < 40 and not dep_q:
+                            o_ = stack_.pop()
+                            seen_ops += 1
+                            if o_.is_const:
+                                continue
+                            if any(r_.is_param(rpi.key, P_QLEN, ()) for r_ in cx.prov(sc, o_)):
+                                dep_q = True
+                                break
+                            for r_ in roots_of(sc, o_):
+                                if r_[0] in ('bin', 'un') and getattr(r_[1], 'rv', None) is not None:
+                                    stack_ += [q_ for q_ in r_[1].rv.ops if not q_.is_const]
+            if not dep_q:
+                other_loop = False
+        if other_loop:
+            n_other_loop += 1
         R.add('PAR-9', body, 'init-site:%s#%d' % (where, n_loop if where == 'fill-loop' else n_straight),
-              ok, site(body, t.line), 'data-set initialiser called (%s)' % where)
+              ok, site(body, t.line), 'data-set initialiser called (%s)%s' % (where, ' - in a loop of the setup code whose trip count this rule does not determine: not judged' if other_loop else ''),
+              undecided=other_loop)
     # exactly one straight-line site, and it provides the consumer's current set (queue_len + 1 sets in total)
     cur_ok = False
     for name, op in zip(rsets_stmt.rv.j['fields'], rsets_stmt.rv.ops):
@@ -282,7 +313,8 @@ def run(prog, R):
         if rs and all(r.kind == 'call' and any(tt is r.data and bb is r.body and not in_loop(sc, blk_) for bb, blk_, tt in init_sites) for r in rs):
             cur_ok = True
     R.add('PAR-9', sc, 'current-set-is-the-extra-set', cur_ok and n_straight == 1 and n_loop == 1, site(sc, rsets_stmt.line),
-          'the set the consumer holds first comes from the single initialiser call outside the fill loop (queue_len + 1 sets circulate: with fewer, a consumer holding one starves the reader): %s' % (cur_ok and n_straight == 1 and n_loop == 1))
+          'the set the consumer holds first comes from the single initialiser call outside the fill loop (queue_len + 1 sets circulate: with fewer, a consumer holding one starves the reader): %s' % (cur_ok and n_straight == 1 and n_loop == 1),
+          undecided=cur_ok and n_straight == 1 and n_loop == 0 and n_other_loop == 1)
     R.floor('PAR-9', 3)
     # other ways a data set could be created in generic parallel code: Default/Clone of the
     # record sets outside initialiser closures
